@@ -553,7 +553,10 @@ func ZZC01Effects() {
 		}
 		src = pre + "m := {" + strings.Join(kv, " ") + "}\nprint m\n"
 		want = "print:{" + strings.Join(kw, " ") + "}\n"
-	case 3: // arguments of a user function
+	case 3: // arguments of a user function with three parameters
+		if len(parts) > 3 {
+			zzAssume(false)
+		}
 		for len(parts) < 3 {
 			parts = append(parts, "0")
 			wants = append(wants, "0")
@@ -609,14 +612,14 @@ func zzPVGen(depth, maxDepth int, a, b float64) *zzPV {
 		return &zzPV{kind: "map"}
 	case "arr":
 		v := &zzPV{kind: "arr"}
-		for i, n := 0, 1+zzChoice("pvn", 2); i < n; i++ {
+		for i, n := 0, 1+zzChoice("pvn", zzParam("PN", 2)); i < n; i++ {
 			v.el = append(v.el, zzPVGen(depth+1, maxDepth, a, b))
 		}
 		return v
 	}
 	v := &zzPV{kind: "map"}
 	keys := []string{"k", "long_key"}
-	for i, n := 0, 1+zzChoice("pvn", 2); i < n; i++ {
+	for i, n := 0, 1+zzChoice("pvn", zzParam("PN", 2)); i < n; i++ {
 		v.keys = append(v.keys, keys[i])
 		v.el = append(v.el, zzPVGen(depth+1, maxDepth, a, b))
 	}
